@@ -36,6 +36,8 @@ def run_impl(case):
     try:
         if case["kind"] == "gc":
             g = np.array(case["grid"], dtype=float)
+            if case.get("int_grids") and all(float(x).is_integer() and abs(x) < 2**40 for x in case["grid"]):
+                g = np.array([int(x) for x in case["grid"]], dtype=np.int64)
             vs = np.array(case["values"], dtype=float)
             g0, v0 = g.copy(), vs.copy()
             out = get_closest(g, vs)
@@ -46,8 +48,24 @@ def run_impl(case):
             obs["twice"] = [float(x) for x in again]
             obs["grid_fixed"] = [float(x) for x in get_closest(g, g.copy())]
         else:
-            grids = [np.array(g, dtype=float) for g in case["grids"]]
+            def mk_grid(g):
+                # a grid of whole numbers may legitimately be stored with an integer dtype
+                if case.get("int_grids") and all(float(x).is_integer() and abs(x) < 2**40 for x in g):
+                    return np.array([int(x) for x in g], dtype=np.int64)
+                return np.array(g, dtype=float)
+
+            grids = [mk_grid(g) for g in case["grids"]]
             ncol = len(case["grids"])
+            if case.get("reuse_grid_objects"):
+                # the SAME array objects held other interior points (same length, same end-points) during an earlier call
+                real_vals = [g.copy() for g in grids]
+                for g in grids:
+                    if len(g) > 2 and g.dtype == np.float64:
+                        g[1:-1] = np.linspace(g[0], g[-1], len(g))[1:-1]
+                probe = np.array([[float(g[len(g) // 2]) for g in grids]], dtype=float)
+                digitize_data(probe, grids)
+                for g, r in zip(grids, real_vals):
+                    g[:] = r
             raw = np.array(case["raw"], dtype=float).reshape(len(case["raw"]), ncol)
             T = case.get("stack")
             if T:
@@ -253,6 +271,18 @@ def gen_gc_dyadic(rng):
             "values": [v * sc for v in vals]}
 
 
+def gen_gc_int(rng):
+    """a grid of whole numbers stored with an INTEGER dtype, real (fractional) values: exact in float arithmetic"""
+    n = rng.randint(1, 12)
+    start = rng.randint(-8, 8)
+    grid, x = [], start
+    for _ in range(n):
+        grid.append(float(x))
+        x += rng.randint(1, 4)
+    vals = [grid[0] - 3.25, grid[-1] + 2.5] + [rng.randint(int(grid[0]) * 4 - 6, int(grid[-1]) * 4 + 6) / 4.0 for _ in range(rng.randint(2, 16))]
+    return {"kind": "gc", "tol": False, "cls": "int-dtype-grid", "grid": grid, "values": vals, "int_grids": True}
+
+
 def float_grid(rng, n):
     scale = 10.0 ** rng.randint(-6, 6)
     flavour = rng.choice(["arange", "linspace", "random", "random", "dups"])
@@ -324,6 +354,9 @@ def gen_dg(rng, tol):
         cols.append(col)
     raw = [[cols[c][r] for c in range(ncol)] for r in range(nrow)]
     case = {"kind": "dg", "tol": tol, "cls": "digitize-" + ("float" if tol else "dyadic"), "grids": grids, "raw": raw}
+    if rng.below(4) == 0:
+        case["reuse_grid_objects"] = True
+        case["cls"] += "-reused"
     if nrow >= 2 and rng.below(3) == 0:
         divs = [t for t in (2, 3, 4) if nrow % t == 0]
         if divs:
@@ -429,6 +462,7 @@ def run(chk, replay=None):
         r = chk.rng
         cases += [gen_gc_dyadic(r) for _ in range(1500 * mult)]
         cases += [gen_gc_float(r) for _ in range(600 * mult)]
+        cases += [gen_gc_int(r) for _ in range(150 * mult)]
         cases += [gen_dg(r, False) for _ in range(200 * mult)]
         cases += [gen_dg(r, True) for _ in range(100 * mult)]
         cases += exhaustive_cases(with_duplicates=chk.tier != "quick")
